@@ -6,7 +6,6 @@ import (
 
 	"golang.org/x/tools/go/ssa"
 
-	"ibcverif/interp"
 	"ibcverif/load"
 	"ibcverif/term"
 )
@@ -80,6 +79,17 @@ func runC29(c *Ctx) {
 	}
 
 	// ---- every method: receivers and guards of the underlying store calls
+	// the value(s) closedIterator returns, as a pattern (call sites are renumbered when it is inlined)
+	closedVal := "call:" + wasmT + ".ClientRecoveryStore.closedIterator(param#0)"
+	if rr := c.Run(which, wasmT+".ClientRecoveryStore.closedIterator"); rr != nil {
+		alts := []string{closedVal}
+		for _, r := range rr.Rets {
+			if len(r.Results) == 1 {
+				alts = append(alts, siteRE.ReplaceAllString(e.T.String(r.Results[0]), ""))
+			}
+		}
+		closedVal = "~or(" + strings.Join(alts, ", ") + ")"
+	}
 	readOps := map[string]bool{"Get": true, "Has": true, "Iterator": true, "ReverseIterator": true, "GetStoreType": true}
 	methods := []string{"Get", "Has", "Set", "Delete", "Iterator", "ReverseIterator", "GetStoreType", "CacheWrap", "GetStore", "closedIterator"}
 	// every method of the type is analysed: fail if the type grew a method we do not know
@@ -130,12 +140,7 @@ func runC29(c *Ctx) {
 				}
 			}
 			if inClosed {
-				// the dummy range [0,1) of the subject store, closed before it is returned
-				if recv != subj || len(ev.Args) != 3 || e.T.String(ev.Args[1]) != "arr(0)" || e.T.String(ev.Args[2]) != "arr(1)" || ci.Common().Method.Name() != "Iterator" {
-					bad = true
-					c.bad("C29/"+m, fk, e.P.Pos(ev.Instr.Pos()), "closedIterator touches a store other than by the dummy range on the subject store")
-				}
-				continue
+				continue // judged by the closed-iterator rule below
 			}
 			nCalls++
 			op := ci.Common().Method.Name()
@@ -216,7 +221,7 @@ func runC29(c *Ctx) {
 					c.bad("C29/"+m, fk, pos, "an unprefixed key reaches a store write")
 				}
 			case "Iterator", "ReverseIterator":
-				if len(ev.Args) != 1 || !any("call:"+wasmT+".ClientRecoveryStore.closedIterator(param#0)", setOf(ev.Args[0])) && !any("~in(call:iface:*.Iterator("+subj+", arr(0), arr(1)))", setOf(ev.Args[0])) {
+				if len(ev.Args) != 1 || !any(closedVal, setOf(ev.Args[0])) {
 					bad = true
 					c.bad("C29/"+m, fk, pos, "an unprefixed range does not return the closed iterator: "+clip(e.T.String(ev.Args[0]), 100))
 				}
@@ -242,7 +247,7 @@ func runC29(c *Ctx) {
 				continue
 			}
 			mixed := (any(isSubj("param#1"), ev.Atoms) && any(notSubj("param#2"), ev.Atoms)) || (any(notSubj("param#1"), ev.Atoms) && any(isSubj("param#2"), ev.Atoms))
-			if mixed && !any("~in(call:iface:*.Iterator("+subj+", arr(0), arr(1)))", setOf(ev.Args[0])) && !any("call:"+wasmT+".ClientRecoveryStore.closedIterator(param#0)", setOf(ev.Args[0])) {
+			if mixed && !any(closedVal, setOf(ev.Args[0])) {
 				bad = true
 				c.bad("C29/"+m+"/mixed", fk, e.P.Pos(ev.Instr.Pos()), "bounds with different prefixes do not return the closed iterator: "+clip(e.T.String(ev.Args[0]), 100))
 			}
@@ -251,10 +256,60 @@ func runC29(c *Ctx) {
 			c.ok("C29/"+m+"/mixed", fk, "", "bounds with different prefixes return the closed iterator")
 		}
 	}
-	// closedIterator closes what it returns
+	// closedIterator must read as empty whatever the stores hold: it may not hand out an iterator
+	// obtained from a store (closing an iterator does not invalidate it), and the value it returns
+	// must be of a type whose Valid() is constantly false
 	if rr := c.Run(which, wasmT+".ClientRecoveryStore.closedIterator"); rr != nil {
-		c.CheckRets(which, "C29/closed-iterator", rr, func(r *interp.Ret) bool { return true }, 1, nil,
-			Req{Name: "closed-before-return", Any: all("call:iface:*.Close(call:iface:*.Iterator(" + subj + ", arr(0), arr(1)))")})
+		fk := wasmT + ".ClientRecoveryStore.closedIterator"
+		touches := false
+		for _, ev := range rr.Events {
+			if ci, ok := ev.Instr.(ssa.CallInstruction); ok && ev.Kind == "call" && ci.Common().IsInvoke() && len(ev.Args) > 0 {
+				r := e.T.String(ev.Args[0])
+				if r == subj || r == subst {
+					touches = true
+					c.bad("C29/closed-iterator/reads-empty", fk, e.P.Pos(ev.Instr.Pos()),
+						"the 'closed' iterator is an iterator over "+clip(e.T.String(ev.Call), 120)+" of an underlying store: Close() does not invalidate it, so an unprefixed or mixed-prefix range yields the subject store's entries in that range")
+				}
+			}
+		}
+		if !touches {
+			never := true
+			n := 0
+			for _, b := range rr.Fn.Blocks {
+				for _, ins := range b.Instrs {
+					ret, ok := ins.(*ssa.Return)
+					if !ok || len(ret.Results) != 1 {
+						continue
+					}
+					n++
+					mi, ok := ret.Results[0].(*ssa.MakeInterface)
+					if !ok {
+						never = false
+						continue
+					}
+					vm := e.P.SSA.LookupMethod(mi.X.Type(), rr.Fn.Pkg.Pkg, "Valid")
+					if vm == nil || vm.Blocks == nil {
+						never = false
+						continue
+					}
+					for _, vb := range vm.Blocks {
+						for _, vi := range vb.Instrs {
+							if vr, ok := vi.(*ssa.Return); ok {
+								k, isC := vr.Results[0].(*ssa.Const)
+								if !isC || k.Value == nil || k.Value.ExactString() != "false" {
+									never = false
+								}
+							}
+						}
+					}
+				}
+			}
+			if never && n > 0 {
+				c.ok("C29/closed-iterator/reads-empty", fk, "", "returns a value whose Valid() is constantly false and touches no store")
+			} else {
+				c.bad("C29/closed-iterator/reads-empty", fk, "", "the returned iterator is not of a type whose Valid() is constantly false")
+			}
+		}
 	}
 	// ---- the recovery call site
 	if rr := c.Run(which, "light-clients/08-wasm.LightClientModule.RecoverClient"); rr != nil {
